@@ -6,7 +6,8 @@ RULE = ("one evaluation = one queue call made by a real StdScheduler (execution 
         "(20/30/40 ms), RetryInterval 50 ms, a script of 13 API calls (Schedule, GetJobKeys, GetScheduledJob, Pause, Resume, Delete, Clear, re-Schedule). Plans: "
         "single faults exhaustively (the k-th queue call, k = 0..119 counting loop-side and API calls together, fails / is slow); bursts (every loop-side call of "
         "{Pop},{Push},{Size},{Head},{Pop,Head},{all four} fails / is slow for 400 ms, and fails for 30/60/90 ms so that the back-off is still running when the faults "
-        "stop); 60 seeded random mixes (per-call failure probability 0.05..0.9, delay probability 0..0.2, operation subsets, loop/API side). Every plan runs in a "
+        "stop); spurious-empty windows (for 400/30/60/90 ms Size() reports 1 or 3 while Head() and Pop() return an error wrapping quartz.ErrQueueEmpty: nothing 'fails' "
+        "in the loop's eyes, so only calculateNextTick's RetryInterval keeps it from spinning); 60 seeded random mixes (per-call failure probability 0.05..0.9, delay probability 0..0.2, operation subsets, loop/API side). Every plan runs in a "
         "supervised child process (a panic or a hang is attributed to the plan). Judged per plan by the harness's own oracle: no panic, no hang (20 s), every "
         "API call returns within 2 s, an API call returns an error that errors.Is the injected one exactly when one of its own queue calls was made to fail, no "
         "fire time handed out by a trigger is taken for execution twice and no job runs more often than fire times were taken, at most 200 loop-side queue "
